@@ -345,6 +345,8 @@ def r3(ctx):
 @rule("C13", "R4", "RANGE", "a state always holds exactly K clusters", floor=3)
 def r4(ctx):
     ana = ctx.ana
+    from . import c20
+    ctx.sub(c20.r2, only=("handler:",))     # no handler skips a cluster's update (the rebuilt list would have K-1 entries)
     ms = ana.prog.cls(MS)
     em = ms.methods["empty_model"]
     b = ana.builder(em, no_inline=ana.known)
